@@ -151,7 +151,7 @@ Proof.
   { intros sc Es v Hv. apply (H2 sc Es) in Hv. destruct (Hlo sc Es) as (_ & _ & Hl). lia. }
   destruct (maybe_rehash_ok c t2 _ HT2 HA2) as (t3 & E3 & HT3 & _ & Ep3 & _ & _ & _).
   exists t3. split; auto. split; auto. split; [rewrite Ep3, Ep2; reflexivity|].
-  intros sc Es. unfold maybe_rehash in E3. destruct (stale t2 <=? Nat.max 16 (length (rows t2) / 2)).
+  intros sc Es. unfold maybe_rehash, TableFns.maybe_rehash_skip in E3. destruct (stale t2 <=? Nat.max 16 (length (rows t2) / 2)).
   - inversion E3; subst t3. exact (Hv2 sc Es).
   - unfold rehash in E3. destruct (forallb _ _); [|discriminate]. inversion E3; subst t3. simpl. rewrite Es.
     intros v Hv. apply build_offs_vals in Hv. destruct Hv as [[]|(r & Hr & E)].
